@@ -80,7 +80,7 @@ def run():
     info = {}
 
     def engine():
-        e = Engine([stk, mw], summ.BASE, inline=[r'^check_stopped$|execute::check_stopped$', r'Batch::new$', r'Batch::update_status$'])
+        e = Engine([stk, mw], summ.BASE, inline=[r'^check_stopped$|execute::check_stopped$', r'Batch::new$', r'Batch::update_status$', r'checked_deadline$'])
         e.variant_index = vi
         return e
 
